@@ -183,3 +183,15 @@ register('C17', 'translation_validation',
          "variable so copies have distinct initial values; permute_grid is covered through linearize_grid (checked to "
          "be the cartesian product) - the sweep itself is the same code path; plotting utilities outside",
          "SMT translation validation of the function captured inside grid_search + tag flow (symx + z3)", "7/C17")
+register('C16', 'translation_validation',
+         "A population model is built twice through the real frontend - PopulationTemplate(n) + Connectivity objects, and "
+         "the explicit network with one node per unit and one scalar edge per non-zero matrix entry - and both emitted "
+         "functions are proved by z3 equal to the reference semantics of the EXPLICIT network for all states, per-unit "
+         "parameters and weights: target_i = sum_j W[i,j]*source_j, scalar weight w*sum_j source_j, algebraic coupling "
+         "edges evaluated per (target, source) pair with source and target variables, discrete delays (ring-buffer "
+         "inductive step) and delay+spread (solver-discovered chains). Every matrix entry and per-unit value is its own "
+         "symbol bound by value, so a transposition or a unit permutation changes the term. Population outputs of run() "
+         "are checked by tag flow (one column per unit, in unit order).",
+         "reals for floats; 1..3 units per population, two populations, sparse signed non-square matrices; dynamic "
+         "(state-bearing) coupling edges are not generated (outside); einsum is a library model validated per run",
+         "SMT translation validation of population vs explicit network (symx + z3)", "7/C16")
